@@ -657,6 +657,24 @@ fn parse_expr_unaryop(
                         match context.module.type_registry.get_type_layer(input_ty_id) {
                             ir::TypeLayer::Scalar(_)
                             | ir::TypeLayer::Vector(..)
+                            | ir::TypeLayer::Matrix(..)
+                                if *op == ast::UnaryOp::Minus
+                                    && context.module.type_registry.extract_scalar(input_ty_id)
+                                        == Some(ir::ScalarType::Bool) =>
+                            {
+                                // Negating a bool is done on an int - as the targets do
+                                let op_ety = context
+                                    .module
+                                    .type_registry
+                                    .transform_scalar(input_ty_id, ir::ScalarType::Int32)
+                                    .to_rvalue();
+
+                                // Input is casted to int rvalue
+                                // Output is the same as input
+                                (op_ety, op_ety)
+                            }
+                            ir::TypeLayer::Scalar(_)
+                            | ir::TypeLayer::Vector(..)
                             | ir::TypeLayer::Matrix(..) => {
                                 // Input is uncasted
                                 // Output has const / lvalue removed
